@@ -3,12 +3,12 @@
   and to every API call (`stepRaw`), including calls that raise.
 -/
 import PulserModel.Sequence
-import Proofs.Timeline
+import Proofs.Limits
 namespace Pulser
 
 def DevOk (d : Device) : Prop := (∀ c ∈ d.chans, 0 < c.clock) ∧ (∀ c ∈ d.dmms, 0 < c.clock)
 
-def SeqInv (s : SeqState) : Prop := ∀ c ∈ s.chans, ChanInv c
+def SeqInv (s : SeqState) : Prop := ∀ c ∈ s.chans, ChanInv s.dev.maxSeqDur c
 
 /-- `s'` is a good successor of `s`: invariant holds, same device, and every
 channel of `s` is still there, at the same position, only extended. -/
@@ -28,7 +28,7 @@ theorem SG.trans {a b c : SeqState} (h1 : SG a b) (h2 : SG b c) : SG a c := by
 
 theorem SG_of_chans_eq {s s' : SeqState} (h : SeqInv s) (h1 : s'.chans = s.chans)
     (h2 : s'.dev = s.dev) (h3 : s'.nQ = s.nQ) : SG s s' :=
-  ⟨by unfold SeqInv; rw [h1]; exact h, h2, h3,
+  ⟨by unfold SeqInv; rw [h1, h2]; exact h, h2, h3,
    fun i c hc => ⟨c, by rw [h1]; exact hc, Ext.refl c⟩⟩
 
 theorem getChan_mem {s : SeqState} {n : ChName} {c : ChanState} (h : s.getChan n = some c) :
@@ -39,9 +39,9 @@ theorem getChan_mem {s : SeqState} {n : ChName} {c : ChanState} (h : s.getChan n
   exact ⟨h1, by simpa using h2⟩
 
 /-- Replacing the first channel named like `c'` by `c'` where `c'` extends it. -/
-theorem replaceChan_good {l : List ChanState} {c c' : ChanState}
-    (hl : ∀ x ∈ l, ChanInv x) (hf : l.find? (·.name == c.name) = some c) (hg : Good c c') :
-    (∀ x ∈ SeqState.replaceChan c' l, ChanInv x) ∧
+theorem replaceChan_good {ms : Option Nat} {l : List ChanState} {c c' : ChanState}
+    (hl : ∀ x ∈ l, ChanInv ms x) (hf : l.find? (·.name == c.name) = some c) (hg : Good ms c c') :
+    (∀ x ∈ SeqState.replaceChan c' l, ChanInv ms x) ∧
     ∀ (i : Nat) (x : ChanState), l[i]? = some x → ∃ y, (SeqState.replaceChan c' l)[i]? = some y ∧ Ext x y := by
   have hname : c'.name = c.name := hg.2.2.1
   induction l with
@@ -83,7 +83,7 @@ theorem replaceChan_good {l : List ChanState} {c c' : ChanState}
           exact ⟨y, by simpa using hy, e⟩
 
 theorem setChan_SG {s : SeqState} {n : ChName} {c c' : ChanState} (hi : SeqInv s)
-    (hc : s.getChan n = some c) (hg : Good c c') : SG s (s.setChan c') := by
+    (hc : s.getChan n = some c) (hg : Good s.dev.maxSeqDur c c') : SG s (s.setChan c') := by
   have hn := (getChan_mem hc).2
   have hf : s.chans.find? (·.name == c.name) = some c := by
     unfold SeqState.getChan at hc; rw [hn]; exact hc
@@ -97,7 +97,7 @@ theorem RG_fail {s : SeqState} (hi : SeqInv s) (e : Err) : RG s (fail s e) := SG
 theorem RG_done {s s' : SeqState} (h : SG s s') : RG s (done s') := h
 
 theorem RG_withChan {s : SeqState} {n : ChName} {f : ChanState → CRes} (hi : SeqInv s)
-    (hf : ∀ c, ChanInv c → Good c (f c).c) : RG s (s.withChan n f) := by
+    (hf : ∀ c, ChanInv s.dev.maxSeqDur c → Good s.dev.maxSeqDur c (f c).c) : RG s (s.withChan n f) := by
   unfold SeqState.withChan
   cases hc : s.getChan n with
   | none => exact RG_fail hi _
@@ -198,18 +198,21 @@ theorem RG_alignLoop {s : SeqState} (hi : SeqInv s) (tf : Int) (l : List (ChName
 
 theorem validateAndAdjust_ok {c : ChanState} {p : PulseIn} {r : Option Rat} {pr : PulseRec}
     (hc : 0 < c.cfg.clock) (h : validateAndAdjust c p r = .ok pr) :
-    c.cfg.clock ∣ pr.dur ∧ c.cfg.minDur ≤ pr.dur := by
+    (c.cfg.clock ∣ pr.dur ∧ c.cfg.minDur ≤ pr.dur) ∧ PulseLim c.cfg c.maxW c.sumW pr ∧
+      WithinLimits c.cfg c.maxW c.sumW p.sum := by
   unfold validateAndAdjust at h
   split at h
   · cases h
-  · split at h
+  · rename_i u hv
+    have hw : WithinLimits c.cfg c.maxW c.sumW p.sum := (validatePulse_iff c p.sum).mp hv
+    split at h
     · cases h
     · rename_i d hd
       have := validateDuration_ok hc hd
       split at h
       · cases h
       · injection h with h; subst h
-        exact ⟨this.2.2.2.2, by simp; omega⟩
+        exact ⟨⟨this.2.2.2.2, by simp; omega⟩, ⟨fun _ => hw, this.2.1⟩, hw⟩
 
 /-- The tail of `_add` once the pulse slot has been appended. -/
 theorem RG_addCore {s : SeqState} (hi : SeqInv s) (p : PulseIn) (n : ChName)
@@ -241,7 +244,8 @@ theorem RG_addCore {s : SeqState} (hi : SeqInv s) (p : PulseIn) (n : ChName)
             | error e => exact RG_fail hi _
             | ok c' =>
               simp only
-              have hg := addPulse_inv (hi c hcm.1) (validateAndAdjust_ok (hi c hcm.1).1 hpr) hadd
+              have hva := validateAndAdjust_ok (hi c hcm.1).1 hpr
+              have hg := addPulse_inv (hi c hcm.1) hva.1 hva.2.1 hadd
               have h1 : SG s (s.setChan c') := setChan_SG hi hc hg
               cases hl' : c'.last with
               | error e => exact h1
@@ -268,11 +272,12 @@ theorem ensureBasis_chans (s : SeqState) (b : Basis) :
   split <;> exact ⟨rfl, rfl, rfl⟩
 
 /-- Appending a fresh channel that satisfies the invariant. -/
-theorem SG_append {s s' : SeqState} {c : ChanState} (hi : SeqInv s) (hc : ChanInv c)
+theorem SG_append {s s' : SeqState} {c : ChanState} (hi : SeqInv s) (hc : ChanInv s.dev.maxSeqDur c)
     (h1 : s'.chans = s.chans ++ [c]) (h2 : s'.dev = s.dev) (h3 : s'.nQ = s.nQ) : SG s s' := by
   refine ⟨?_, h2, h3, ?_⟩
   · intro x hx
     rw [h1] at hx
+    rw [h2]
     rcases List.mem_append.mp hx with hx | hx
     · exact hi x hx
     · simp at hx; subst hx; exact hc
@@ -283,14 +288,15 @@ theorem SG_append {s s' : SeqState} {c : ChanState} (hi : SeqInv s) (hc : ChanIn
     · exact (List.getElem?_eq_some_iff.mp hx).1
 
 theorem freshChan_inv {name : ChName} {chId : Nat} {cfg : ChanCfg} {qs : List Nat} {w : Bool}
-    {a b : Rat} (h : 0 < cfg.clock) : ChanInv (SeqState.freshChan name chId cfg qs w a b) := by
+    {a b : Rat} {ms : Option Nat} (h : 0 < cfg.clock) :
+    ChanInv ms (SeqState.freshChan name chId cfg qs w a b) := by
   refine ⟨h, ?_⟩
-  show InvR cfg (if w = true then _ else _ : List Slot).reverse
+  show InvR _ (if w = true then _ else _ : List Slot).reverse
   split
   · exact ⟨rfl, rfl, rfl⟩
   · trivial
 
-theorem addChannel_SG {s : SeqState} {c : ChanState} (hi : SeqInv s) (hc : ChanInv c) :
+theorem addChannel_SG {s : SeqState} {c : ChanState} (hi : SeqInv s) (hc : ChanInv s.dev.maxSeqDur c) :
     SG s (s.addChannel c) := by
   unfold SeqState.addChannel
   simp only
@@ -334,7 +340,7 @@ theorem stepRaw_RG {s : SeqState} (hd : DevOk s.dev) (hi : SeqInv s) (op : Op) :
             · apply RG_store
               have hmem : cfg ∈ s.dev.chans := List.mem_of_getElem? hcfg
               have hfc := fun nm => freshChan_inv (name := nm) (chId := chId) (qs := s.allQubits)
-                (w := !cfg.isLocal) (a := 1) (b := 1) (hd.1 cfg hmem)
+                (w := !cfg.isLocal) (a := 1) (b := 1) (ms := s.dev.maxSeqDur) (hd.1 cfg hmem)
               split
               · exact addChannel_SG hi (hfc _)
               · split
